@@ -70,6 +70,9 @@ func CSVConsumer(opts ...CSVOpt) Consumer {
 
 		switch destination := data.(type) {
 		case *csv.Writer:
+			if destination == nil {
+				return errors.New("nil destination (*csv.Writer) for CSVConsumer")
+			}
 			csvWriter := destination
 			o.applyToWriter(csvWriter)
 
@@ -112,6 +115,9 @@ func CSVConsumer(opts ...CSVOpt) Consumer {
 			// support *[][]string, *[]byte, *string
 			if ptr := reflect.TypeOf(data); ptr.Kind() != reflect.Ptr {
 				return errors.New("destination must be a pointer")
+			}
+			if reflect.ValueOf(data).IsNil() {
+				return fmt.Errorf("nil destination (%T) for CSVConsumer", data)
 			}
 
 			v := reflect.Indirect(reflect.ValueOf(data))
